@@ -25,6 +25,8 @@ var c15Pws = []string{"", "pw", "secret password", "p\x00q", "\xfe\x01\x7f", "\x
 
 func genC15(rng *rand.Rand, c *Case) {
 	c.Cfg["policy"] = rng.Intn(3)
+	// a second administrator on its own connection edits its own accounts at the same moment as each request
+	c.Cfg["admin2"] = rng.Intn(2)
 	n := 3 + rng.Intn(10)
 	live := []int{}
 	free := rng.Perm(len(c15Logins))
@@ -289,9 +291,77 @@ func runC15(w *World) {
 		return true
 	}
 
+	// second administrator: one request of a fixed create / modify / rename / delete cycle on its own two logins,
+	// released at the same moment as each request of the first administrator and joined before the views are compared
+	var admin2 *Client
+	var q2, qMain simrt.WaitQ
+	pending2, done2, stop2 := false, true, false
+	cycle2 := 0
+	loginAdmin2 := func() bool {
+		probeSeq++
+		admin2 = w.NewClient("administrator2", fmt.Sprintf("10.4.%d.%d", probeSeq/250, probeSeq%250+1))
+		return admin2.Login("admin", "adminpw", "", 0) && admin2.Agree("administrator2", 0, 0, "")
+	}
+	if w.Case.Cfg["admin2"] == 1 {
+		w.Sim.Go("admin2", false, func() {
+			for {
+				for !pending2 && !stop2 {
+					simrt.Park(&q2)
+				}
+				if stop2 {
+					return
+				}
+				pending2 = false
+				a := accessFromInt(cycle2 * 7919)
+				var rep rp.Tran
+				var ok bool
+				switch cycle2 % 4 {
+				case 0:
+					note("zz-b0", "pw-b")
+					rep, ok = admin2.NewUser("zz-b0", "Second admin's account", "pw-b", a)
+					if ok && rep.Err == 0 {
+						model["zz-b0"] = acctModel{Name: "Second admin's account", Access: a, Pw: "pw-b"}
+					}
+				case 1:
+					rep, ok = admin2.SetUser("zz-b0", fmt.Sprintf("Edited by 2 (%d)", cycle2), a, PwUnchanged, "")
+					if ok && rep.Err == 0 {
+						m := model["zz-b0"]
+						m.Name, m.Access = fmt.Sprintf("Edited by 2 (%d)", cycle2), a
+						model["zz-b0"] = m
+					}
+				case 2:
+					note("zz-b1", "pw-b")
+					rep, ok = admin2.UpdateUsers([]UserEdit{{Kind: "rename", Login: "zz-b0", NewLogin: "zz-b1", Name: "Renamed by 2", Access: a, PwMode: PwUnchanged}})
+					if ok && rep.Err == 0 {
+						m := model["zz-b0"]
+						delete(model, "zz-b0")
+						m.Name, m.Access = "Renamed by 2", a
+						model["zz-b1"] = m
+					}
+				case 3:
+					rep, ok = admin2.DeleteUser("zz-b1")
+					if ok && rep.Err == 0 {
+						delete(model, "zz-b1")
+					}
+				}
+				if !ok || rep.Err != 0 {
+					w.Violate("c15-request-refused-second-admin", "second administrator's request %d (cycle step %d) refused/unanswered: %s", cycle2, cycle2%4, fieldStr(rep, rp.FError))
+				}
+				cycle2++
+				w.Probe("concurrent_second_admin_requests")
+				done2 = true
+				simrt.Wake(&qMain)
+			}
+		})
+	}
 	w.Sim.Go("admin", true, func() {
+		defer func() { stop2 = true; simrt.Wake(&q2) }()
 		if !loginAdmin() {
 			w.Violate("c15-admin-login", "administrator could not log in")
+			return
+		}
+		if w.Case.Cfg["admin2"] == 1 && !loginAdmin2() {
+			w.Violate("c15-admin-login", "second administrator could not log in")
 			return
 		}
 		note("admin", "adminpw")
@@ -314,6 +384,16 @@ func runC15(w *World) {
 				return true
 			}
 			L := func(i int) string { return c15Logins[i] }
+			join2 := func() {
+				for !done2 {
+					simrt.Park(&qMain)
+				}
+			}
+			join2() // the request released in an iteration that was skipped
+			if w.Case.Cfg["admin2"] == 1 && op.K != "restart" {
+				pending2, done2 = true, false
+				simrt.Wake(&q2)
+			}
 			switch op.K {
 			case "newuser", "batch-create":
 				l, a, pw := L(op.N[0]), accessFromInt(op.N[1]), c15Pws[op.N[2]]
@@ -419,12 +499,13 @@ func runC15(w *World) {
 					w.Violate("c15-restart-fails", "%s: server does not start from the account files: %v", when, si.StartErr)
 					return
 				}
-				if !loginAdmin() {
+				if !loginAdmin() || (w.Case.Cfg["admin2"] == 1 && !loginAdmin2()) {
 					w.Violate("c15-admin-login", "%s: administrator cannot log in after restart", when)
 					return
 				}
 				w.Probe("restarts")
 			}
+			join2()
 			w.Probe("ops_" + op.K)
 			if !verify(when) {
 				return
